@@ -637,6 +637,7 @@ impl CompactThetaSketch {
         }
 
         let entries = Self::read_entries(&mut cursor, num_entries, theta)?;
+        Self::ensure_ascending(&entries)?;
 
         Ok(Self {
             entries,
@@ -683,6 +684,7 @@ impl CompactThetaSketch {
                     .read_u32_le()
                     .map_err(insufficient_data("<unused_u32>"))?;
                 let entries = Self::read_entries(&mut cursor, num_entries, MAX_THETA)?;
+                Self::ensure_ascending(&entries)?;
                 // an exact-mode image (two preamble longs) carries its retained entries
                 let empty = entries.is_empty();
                 Ok(Self {
@@ -706,6 +708,7 @@ impl CompactThetaSketch {
                     .map_err(insufficient_data("theta_long"))?;
                 let empty = (num_entries == 0) && (theta == MAX_THETA);
                 let entries = Self::read_entries(&mut cursor, num_entries, theta)?;
+                Self::ensure_ascending(&entries)?;
                 Ok(Self {
                     entries,
                     theta,
@@ -760,10 +763,8 @@ impl CompactThetaSketch {
             entries = Self::read_entries(&mut cursor, num_entries as usize, theta)?;
         }
         let ordered = (flags & serialization::FLAGS_IS_ORDERED) != 0;
-        if ordered && entries.windows(2).any(|w| w[0] >= w[1]) {
-            return Err(Error::deserial(
-                "corrupted: entries of an ordered sketch are not ascending",
-            ));
+        if ordered {
+            Self::ensure_ascending(&entries)?;
         }
         Ok(Self {
             entries,
@@ -772,6 +773,15 @@ impl CompactThetaSketch {
             ordered,
             empty,
         })
+    }
+
+    fn ensure_ascending(entries: &[u64]) -> Result<(), Error> {
+        if entries.windows(2).any(|w| w[0] >= w[1]) {
+            return Err(Error::deserial(
+                "corrupted: entries of an ordered sketch are not ascending",
+            ));
+        }
+        Ok(())
     }
 
     fn deserialize_v4(
